@@ -27,21 +27,25 @@ checks = {
         body='''    alpha = ['kill', 'pause', 'play', 'resume', 'cancel', 'cbok', 'cbraise', 'fail']
     kill_plans = core_check.reentrant_plans(['step', 'L_running', 'L_waiting', 'L_paused', 'L_played', 'L_output'], [('kill', 'k2'), ('pause', 'p2')])
     down = core_model.family(['P12', 'P02'], out_missing=['P12', 'P02'])
+    pe = core_model.plan_entry
+    lfaults = [[pe('L_' + e, o, 'fault', 'X')] for e in ('running', 'waiting', 'finished', 'excepted', 'killed', 'paused') for o in (1, 2)]
     if tier == 'quick':
         mc = [dict(name='C02_env', progs=C.fam(C.ALL), plans=[[]], alphabet=alpha, k=3, invariants=INV),
               dict(name='C02_reentrant', progs=C.fam(C.SMALL), plans=kill_plans, alphabet=alpha, k=1, invariants=INV),
               dict(name='C02_downgrade', progs=down, plans=[[]], alphabet=alpha, k=2, invariants=INV)]
         rp = [dict(name='C02_env', progs=C.fam(C.ALL), plans=[[]], alphabet=alpha, k=2),
               dict(name='C02_reentrant', progs=C.fam(['P03', 'P05']), plans=kill_plans, alphabet=alpha, k=1),
-              dict(name='C02_downgrade', progs=down, plans=[[]], alphabet=alpha, k=2)]
+              dict(name='C02_downgrade', progs=down, plans=[[]], alphabet=alpha, k=2),
+              dict(name='C02_listener_raises', progs=C.fam(['P02', 'P03', 'P08']), plans=lfaults, alphabet=['kill', 'pause', 'play'], k=1)]
     else:
         mc = [dict(name='C02_env', progs=C.fam(C.ALL), plans=[[]], alphabet=alpha, k=4, invariants=INV),
               dict(name='C02_reentrant', progs=C.fam(C.ALL), plans=kill_plans, alphabet=alpha, k=2, invariants=INV),
               dict(name='C02_downgrade', progs=down, plans=[[]], alphabet=alpha, k=3, invariants=INV)]
         rp = [dict(name='C02_env', progs=C.fam(C.ALL), plans=[[]], alphabet=alpha, k=3),
               dict(name='C02_reentrant', progs=C.fam(C.SMALL), plans=kill_plans, alphabet=alpha, k=1),
-              dict(name='C02_downgrade', progs=down, plans=[[]], alphabet=alpha, k=3)]''',
-        extra_assume=['the five accessor families (future, result, successful/is_successful, killed/killed_msg, exception) are read from the real process after every action and must agree with each other and with the specification state'],
+              dict(name='C02_downgrade', progs=down, plans=[[]], alphabet=alpha, k=3),
+              dict(name='C02_listener_raises', progs=C.fam(C.ALL), plans=lfaults, alphabet=['kill', 'pause', 'play', 'resume'], k=2)]''',
+        extra_assume=['three listeners are attached (one recording, two counting): every listener must be told each event exactly once even when another listener raises', 'the five accessor families (future, result, successful/is_successful, killed/killed_msg, exception) are read from the real process after every action and must agree with each other and with the specification state'],
         rule='every interleaving of <=K control requests (incl. kill while paused, during a step, from a listener) with every program; accessor agreement, notification/cleanup counts and stepping-task completion compared after every action'),
     'c04': dict(
         pid='C04', doc='C04 - a kill request is never lost and no live process is unkillable.',
@@ -98,22 +102,34 @@ checks = {
         extra_assume=['resume values {v1, v2, no value}; the first accepted resume of a wait must be what the continuation receives, exactly once'],
         rule='every order and placement of resume(v)/resume(v2)/resume() relative to pause/play/kill between any two callbacks for every waiting program'),
     'c13': dict(
-        pid='C13', doc='C13 - the return value of a step alone decides what happens next, with exact arguments (restore part: module Checkpoint).',
+        pid='C13', doc='C13 - the return value of a step alone decides what happens next, with exact arguments, also across a checkpoint restore.',
         inv=['C13_Continuation', 'C13_Outcome', 'C06_ResumeValue'], prop=[],
         body='''    ov = [('ResumeVals', 'MCResumeVals')]
     xd = 'MCResumeVals == {"v1", "v0", "NULL"}\\n'
-    progs = C.ALL + ['P20', 'P21', 'P22', 'P23']
+    progs = C.ALL + ['P20', 'P21', 'P22', 'P23', 'P24']
     ppr = ['resume', 'pause', 'play']
+    pe = core_model.plan_entry
+    pfault = [[]] + [[pe(h, o, 'fault', 'X')] for h in ('on_pausing', 'on_paused', 'on_playing') for o in (1, 2)]
+    saves = [[]] + [[pe('cb_entered', o, 'save')] for o in (1, 2, 3)]
+    rkn = {'medium': 'none', 'listener': False}
     if tier == 'quick':
         mc = [dict(name='C13_resume', progs=C.fam(progs), plans=[[]], alphabet=['resume'], k=3, invariants=INV, overrides=ov, extra_defs=xd),
               dict(name='C13_env', progs=C.fam(progs), plans=[[]], alphabet=ppr, k=3, invariants=INV[:1] + INV[2:], overrides=ov, extra_defs=xd)]
         rp = [dict(name='C13_resume', progs=C.fam(progs), plans=[[]], alphabet=['resume'], k=3, overrides=ov, extra_defs=xd),
-              dict(name='C13_env', progs=C.fam(['P04', 'P14', 'P20', 'P21', 'P22']), plans=[[]], alphabet=ppr, k=2, overrides=ov, extra_defs=xd)]
+              dict(name='C13_env', progs=C.fam(['P04', 'P14', 'P20', 'P21', 'P22']), plans=[[]], alphabet=ppr, k=2, overrides=ov, extra_defs=xd),
+              dict(name='C13_pausefault', progs=C.fam(['P04', 'P14', 'P22']), plans=pfault, alphabet=['pause', 'play'], k=2),
+              dict(name='C13_restore', progs=C.fam(['P04', 'P20', 'P24']), plans=saves, alphabet=['restore'], k=1, run_kw=rkn)]
+        mc.append(dict(name='C13_pausefault', progs=C.fam(['P04', 'P14', 'P22']), plans=pfault, alphabet=['pause', 'play'], k=2, invariants=INV[:1]))
+        mc.append(dict(name='C13_restore', progs=C.fam(progs), plans=saves, alphabet=['save', 'restore', 'resume'], k=3, invariants=INV[:1] + ['C08_Equivalent']))
     else:
         mc = [dict(name='C13_resume', progs=C.fam(progs), plans=[[]], alphabet=['resume'], k=5, invariants=INV, overrides=ov, extra_defs=xd),
               dict(name='C13_env', progs=C.fam(progs), plans=[[]], alphabet=ppr, k=5, invariants=INV[:1] + INV[2:], overrides=ov, extra_defs=xd)]
         rp = [dict(name='C13_resume', progs=C.fam(progs), plans=[[]], alphabet=['resume'], k=4, overrides=ov, extra_defs=xd),
-              dict(name='C13_env', progs=C.fam(progs), plans=[[]], alphabet=ppr, k=3, overrides=ov, extra_defs=xd)]''',
+              dict(name='C13_env', progs=C.fam(progs), plans=[[]], alphabet=ppr, k=3, overrides=ov, extra_defs=xd),
+              dict(name='C13_pausefault', progs=C.fam(['P04', 'P14', 'P20', 'P22']), plans=pfault, alphabet=['pause', 'play', 'resume'], k=3),
+              dict(name='C13_restore', progs=C.fam(progs), plans=saves, alphabet=['restore', 'resume'], k=2, run_kw=rkn)]
+        mc.append(dict(name='C13_pausefault', progs=C.fam(progs), plans=pfault, alphabet=['pause', 'play', 'resume'], k=3, invariants=INV[:1]))
+        mc.append(dict(name='C13_restore', progs=C.fam(progs), plans=saves, alphabet=['save', 'restore', 'resume'], k=4, invariants=INV[:1] + ['C08_Equivalent']))''',
         extra_assume=['generated continuation functions record (args, kwargs) exactly as received; values are small ints / None / short strings'],
         rule='every program of the family incl. chains with positional and keyword arguments, resume values {1, 0, none}; expected (function, args, kwargs) derived from the returned command'),
 }
